@@ -119,7 +119,7 @@ package health
 //@ func (hc *HealthClient) performSingleCheck
 //@   property C07 C20
 //@   safety
-//@   requires hc != nil && endpoint != nil
+//@   requires hc != nil && endpoint != nil && hc.client != nil
 //@   modifies gvar doCount
 //@   ensures doCount <= old(doCount) + 1 && doCount >= old(doCount)
 //@   ensures res0.Status == "healthy" ==> doCount == old(doCount) + 1
@@ -131,7 +131,7 @@ package health
 //@ func (hc *HealthClient) Check
 //@   property C07 C08 C20
 //@   safety
-//@   requires hc != nil && endpoint != nil && hc.circuitBreaker != nil
+//@   requires hc != nil && endpoint != nil && hc.circuitBreaker != nil && hc.client != nil && ctx != nil
 //@   modifies hc.circuitBreaker.endpoints[all], circuitState.failures, circuitState.lastFailure, circuitState.lastAttempt, circuitState.isOpen, gvar doCount
 //@   records chkStatus = result.Status
 //@   records chkCount = old(chkCount) + 1
@@ -162,7 +162,7 @@ package health
 
 //@ func (c *HTTPHealthChecker) checkEndpoint
 //@   property C07 C03
-//@   requires c != nil && endpoint != nil && c.healthClient != nil && c.healthClient.circuitBreaker != nil
+//@   requires c != nil && endpoint != nil && c.healthClient != nil && c.healthClient.circuitBreaker != nil && c.healthClient.client != nil && ctx != nil
 //@   modifies c.healthClient.circuitBreaker.endpoints[all], circuitState.failures, circuitState.lastFailure, circuitState.lastAttempt, circuitState.isOpen
 //@   modifies gvar doCount, gvar chkStatus, gvar chkCount, gvar spawned
 //@   modifies gvar updCount, gvar updStatus, gvar updLastChecked, gvar updNext, gvar updFailures, gvar updMult, gvar updURL, gvar updErr
